@@ -43,6 +43,14 @@ CLAIMED = {
             "round trip / fix point: random states (texts and setter sequences, strings and titles over all bytes) printed, re-parsed into a fresh context, trees and second/third print compared",
             "States without a text form (explicit NULL strings, removed default sections, NaN/inf) are not generated.",
             "round-trip property-based testing (Hypothesis stateful-style operation sequences), print/parse/print fix-point oracle"),
+    "C09": ("exploration", "5.C09",
+            "model-based: exhaustive call sequences (depth 3, 4 from the initial state in thorough) over a 60-call alphabet from four start states plus random sequences to length 30, abstract typed store as oracle after every call",
+            "Store model of DESIGN Appendix A incl. its stated 'model follows code' decisions.",
+            "model-based stateful testing: exhaustive bounded sequence enumeration + Hypothesis sequences against an abstract store"),
+    "C10": ("exploration", "5.C10",
+            "complete product of option-state recipes x refusing calls x offending positions, bit-identical dump before/after (values, annotation, RESET/MODIFIED), plus random interleavings with successful calls",
+            "Refusals are refusals by construction; the dump goes through public getters plus the public flag bits.",
+            "exhaustive product enumeration + Hypothesis interleavings, snapshot-equality invariant"),
 }
 PENDING = {}
 props = [json.loads(l) for l in open(os.path.join(V, "properties.jsonl"))]
